@@ -561,7 +561,7 @@ class FnTr:
         v = env[name]
         if c.keywords or any(isinstance(a, ast.Starred) for a in c.args):
             raise Unsupported(".%s with keywords / starred arguments" % attr, s)
-        if v.ty not in (STRLIST, NATLIST, BOT):
+        if v.ty not in (STRLIST, NATLIST, BOT, IVROWS):
             raise Unsupported(".%s on a %s" % (attr, show_type(v.ty)), s)
         if not v.owned:
             raise Unsupported("in-place .%s on %s, which may be the caller's list (no copy was made on some path)"
@@ -579,16 +579,22 @@ class FnTr:
             a = self.expr(c.args[0], env, binds)
             prim = "append"
         ty = v.ty
+        row2 = a.ty == VEC and a.elts is not None and len(a.elts) == 2 and a.fresh    # a fresh display `[s, e]`
         if ty == BOT:
-            ty = {STR: STRLIST, NAT: NATLIST}.get(a.ty)
+            ty = IVROWS if row2 else {STR: STRLIST, NAT: NATLIST}.get(a.ty)
             if ty is None:
                 raise Unsupported(".%s of a %s to an empty list" % (attr, show_type(a.ty)), s)
-        elt = STR if ty == STRLIST else NAT
+        if ty == IVROWS:
+            if not row2:
+                raise Unsupported(".%s of a %s to a list of [start, end] rows" % (attr, show_type(a.ty)), s)
+            item = "(%s, %s)" % (coerce(a.elts[0], RAT, s), coerce(a.elts[1], RAT, s))
+        else:
+            item = coerce(a, STR if ty == STRLIST else NAT, s)
         cur = coerce(E(v.term, v.ty), ty, s)
         env2 = dict(env)
         env2[name] = Var(ty, ident(name), owned=True)
         return self.bind_lines(binds) + ["let %s : %s := %s.%s %s %s" % (
-            ident(name), lean_type(ty), PI, prim, cur, coerce(a, elt, s))] + cont(env2)
+            ident(name), lean_type(ty), PI, prim, cur, item)] + cont(env2)
 
     def assign(self, target, value, env, cont, node):
         binds = []
@@ -607,6 +613,12 @@ class FnTr:
             if len(set(names)) != len(names):
                 raise Unsupported("repeated unpacking target", node)
             e = self.expr(value, env, binds)
+            if e.ty[0] == "tup" and len(e.ty[1]) == len(names) and e.elts is None:
+                env2 = dict(env)
+                for n, t in zip(names, e.ty[1]):
+                    env2[n] = Var(t, ident(n), owned=e.fresh)
+                return self.bind_lines(binds) + ["let (%s) : %s := %s" % (
+                    ", ".join(ident(n) for n in names), lean_type(e.ty), e.term)] + cont(env2)
             if e.ty[0] != "tup" or len(e.ty[1]) != len(names) or e.elts is None:
                 raise Unsupported("unpacking a value of type %s into %d names" % (show_type(e.ty), len(names)), node)
             env2 = dict(env)
@@ -616,6 +628,23 @@ class FnTr:
                 if x.ty != BOT:
                     lines.append("let %s : %s := %s" % (ident(n), lean_type(x.ty), x.term))
             return self.bind_lines(binds) + lines + cont(env2)
+        if isinstance(target, ast.Subscript) and isinstance(target.value, ast.Subscript) \
+                and isinstance(target.value.value, ast.Name) and target.value.value.id in env:
+            # `rows[-1][-1] = e`: the end of the last `[start, end]` row of a list of rows this function built
+            name = target.value.value.id
+            v = env[name]
+            if self.int_lit(target.value.slice) != -1 or self.int_lit(target.slice) not in (-1, 1):
+                raise Unsupported("nested item assignment other than rows[-1][-1] = e", node)
+            if v.ty not in (BOT, IVROWS) or not v.owned:
+                raise Unsupported("nested item assignment on %s (a %s this function may not own)" % (name, show_type(v.ty)),
+                                  node)
+            e = self.expr(value, env, binds)
+            if e.ty not in NUMERIC:
+                raise Unsupported("rows[-1][-1] = <%s>" % show_type(e.ty), node)
+            env2 = dict(env)
+            env2[name] = Var(IVROWS, ident(name), owned=True)
+            return self.bind_lines(binds) + ["let %s : %s ← %s.setLastEnd %s %s" % (
+                ident(name), lean_type(IVROWS), PI, coerce(E(v.term, v.ty), IVROWS, node), coerce(e, RAT, node))] + cont(env2)
         if isinstance(target, ast.Subscript) and isinstance(target.value, ast.Name) and target.value.id in env:
             if isinstance(target.slice, ast.Slice):
                 return self.slice_store(target, value, env, cont, node)
@@ -823,8 +852,9 @@ class FnTr:
     def iterable(self, it, env, binds, node):
         """-> (Lean term of the iterated list, [element types])"""
         if isinstance(it, ast.Call) and isinstance(it.func, ast.Name) and it.func.id not in env and not it.keywords:
-            elt = {STRLIST: STR, IDX: NAT, NATLIST: NAT, VEC: RAT, OPTSTRLIST: OPT(STR), FIDX: NAT}
-            if it.func.id == "zip" and len(it.args) in (2, 3):
+            elt = {STRLIST: STR, IDX: NAT, NATLIST: NAT, VEC: RAT, OPTSTRLIST: OPT(STR), FIDX: NAT, INTLIST: INT,
+                   BITMAPS: BITMAP}
+            if it.func.id == "zip" and len(it.args) in (2, 3, 4, 5):
                 es = [self.expr(a, env, binds) for a in it.args]
                 if all(e.ty in elt for e in es):
                     term = es[-1].term
@@ -1054,6 +1084,10 @@ class FnTr:
         if type(op) not in syms:
             raise Unsupported("comparison %s" % type(op).__name__, node)
         sym = syms[type(op)]
+        if sym in ("=", "≠") and a.ty in (INT, NAT, STR) and (b.ty == NONE or b.ty == OPT(a.ty)):
+            return E("(decide ((some %s) %s %s))" % (a.term, sym, coerce(b, OPT(a.ty), node)), BOOL)
+        if sym == "≠" and a.ty == BITMAP and (b.ty == NONE or b.ty == OPT(BITMAP)):
+            return E("(%s.rowNeMask %s %s)" % (PI, a.term, coerce(b, OPT(BITMAP), node)), MASK)
         arr = {IV: lambda x: "(%s.ravel %s)" % (PI, x), VEC: lambda x: x, COL: lambda x: x}
         if a.ty in arr and b.ty in NUMERIC:
             return E("(List.map (fun _v => decide (_v %s %s)) %s)" % (sym, coerce(b, RAT, node), arr[a.ty](a.term)), MASK)
@@ -1315,6 +1349,8 @@ class FnTr:
             if a.ty == NUM and b.ty == NUM:
                 return E("(%s.pyMinNum %s %s)" % (PI, a.term, b.term), NUM, np=True)
             raise Unsupported("min of %s and %s" % (show_type(a.ty), show_type(b.ty)), node)
+        if name in CFG.get("externs", {}) and name in self.m.funcs and name not in env:
+            return CFG["externs"][name](self, node, env, binds)
         if name in XMOD and CFG["modname"] != "util":
             if self.m.imports.get("util") not in ("..util", ".util", "mir_eval.util") or "util" in self.m.assigned:
                 raise Unsupported("`util` is not mir_eval.util", node)
@@ -1430,6 +1466,10 @@ class FnTr:
                         return E("(%s)" % " ++ ".join(e.term for e in es), IV, fresh=True)
                 raise Unsupported("np.concatenate(axis=0) of anything but (n, 2) arrays", node)
             return E(self.stack_rows(node.args[0], env, binds, node, 1), VEC, fresh=True)
+        if fn == "array" and nargs == 1 and not node.keywords and isinstance(node.args[0], ast.Name):
+            v = A(0)
+            if v.ty == IVROWS:
+                return E(v.term, IV, fresh=True)
         if fn == "array" and nargs == 1 and not node.keywords:
             arg = node.args[0]
             if isinstance(arg, ast.List) and len(arg.elts) == 1 and isinstance(arg.elts[0], (ast.List, ast.Tuple)) \
